@@ -94,6 +94,19 @@ func run() {
 		panic(refusal("type check: " + err.Error()))
 	}
 	t.pkg = pkg
+	t.charact = map[string]bool{}
+	if *noUnf != "" {
+		data, err := os.ReadFile(*noUnf)
+		if err != nil {
+			panic(err)
+		}
+		for _, l := range strings.Split(string(data), "\n") {
+			l = strings.TrimSpace(l)
+			if l != "" && !strings.HasPrefix(l, "#") {
+				t.charact[l] = true
+			}
+		}
+	}
 
 	t.checkPackageVars()
 	typesTxt := t.genTypes()
@@ -507,7 +520,7 @@ func (t *tr) genTypes() string {
 				t.cpuFields = append(t.cpuFields, f.Name())
 			}
 		}
-		fmt.Fprintf(&b, "structure %s", mangle(n))
+		fmt.Fprintf(&b, "@[ext] structure %s", mangle(n))
 		if len(ext) > 0 {
 			fmt.Fprintf(&b, " extends %s", strings.Join(ext, ", "))
 		}
@@ -688,10 +701,16 @@ func (t *tr) translate(fi *funcInfo) {
 		for _, l := range c.lines {
 			b.WriteString("  " + l + "\n")
 		}
-	} else if fi.kind == kPure {
-		fmt.Fprintf(&b, "@[z80gen] def %s %s : %s :=\n%s\n", fi.name, strings.Join(params, " "), resT, body)
 	} else {
-		fmt.Fprintf(&b, "@[z80gen] def %s %s : M %s := do\n%s\n", fi.name, strings.Join(params, " "), resT, body)
+		attr := "@[z80gen] "
+		if t.charact[fi.name] {
+			attr = "/- characterised by a lemma in Z80.Proofs.Helpers; not unfolded by the arm tactic -/\n"
+		}
+		if fi.kind == kPure {
+			fmt.Fprintf(&b, "%sdef %s %s : %s :=\n%s\n", attr, fi.name, strings.Join(params, " "), resT, body)
+		} else {
+			fmt.Fprintf(&b, "%sdef %s %s : M %s := do\n%s\n", attr, fi.name, strings.Join(params, " "), resT, body)
+		}
 	}
 	fi.text = b.String()
 }
